@@ -1,7 +1,26 @@
 //! refpdf — the reference layer: independent re-implementations of the parts of PDF the
 //! checks need an oracle for, written from the specifications (never from /repo).
+//! Optional parts sit behind cargo features so that a part under construction cannot
+//! break the build of checks that do not use it.
 pub mod builder;
 pub mod file;
 pub mod filters;
 pub mod syntax;
 pub mod textstr;
+
+#[cfg(feature = "ccitt")]
+pub mod ccitt;
+#[cfg(feature = "cff")]
+pub mod cff;
+#[cfg(feature = "cmap")]
+pub mod cmap;
+#[cfg(feature = "content")]
+pub mod content;
+#[cfg(feature = "crypto")]
+pub mod crypto;
+#[cfg(feature = "encodings")]
+pub mod encodings;
+#[cfg(feature = "pngenc")]
+pub mod pngenc;
+#[cfg(feature = "ttf")]
+pub mod ttf;
